@@ -29,7 +29,9 @@ Subset and semantics (what the translator *assumes*, i.e. the trusted part):
     dispatch through the MRO, `super()` handled), single-`return` methods are inlined;
   * `for cb in self.callbacks` bodies are skipped (callback-free instance: `_callbacks = []`);
   * list indexing assumes an in-range non-negative index (`nth`/`set_nth`);
-  * `for _ in range(n)` over an int n is the bounded iterator `Py.iter_res`; `obj[i]` is the class's `__getitem__` inlined;
+  * `for _ in range(n)` over an int n is the bounded iterator `Py.iter_res`; `for i in range(a, b)` (or `range(n)` with the
+    loop variable used) is the same with `i` as a carried counter; `arr[i] = x` on a float array is `set_nth` behind an
+    `IndexError` guard, `arr[a:b] = x` overwrites the entries a..b-1 (0 <= a <= b <= len, guarded), `np.zeros(n)` is n zeros; `obj[i]` is the class's `__getitem__` inlined;
   * library calls declared as ORACLES (`SPEC["oracles"]`, and the fixed set `np.random.choice(a=, size=, replace=False)`,
     `ks_2samp(data1=, data2=, <constant options>)`, `scipy.special.logsumexp(vec)`, `norm(loc, scale).logpdf(x)`) are
     uninterpreted functions: section parameters of the generated file, whose NAME carries the constant keyword options;
@@ -576,7 +578,25 @@ class Frame:
                 it = ast.unparse(s.iter)
                 if it == "self.callbacks":
                     continue  # callback-free instance
-                if isinstance(s.iter, ast.Call) and isinstance(s.iter.func, ast.Name) and s.iter.func.id == "range" and len(s.iter.args) == 1 and not s.orelse:
+                if isinstance(s.iter, ast.Call) and isinstance(s.iter.func, ast.Name) and s.iter.func.id == "range" and len(s.iter.args) in (1, 2) and not s.orelse and not s.iter.keywords:
+                    used = isinstance(s.target, ast.Name) and any(isinstance(nd, ast.Name) and nd.id == s.target.id for st in s.body for nd in ast.walk(st))
+                    if len(s.iter.args) == 2 or used:
+                        # `for i in range(a, b): body`  ==  i = a; repeat max(b - a, 0) times: body; i = i + 1
+                        # (i must not be assigned in the body; its value after the loop is not used by the subset)
+                        if not isinstance(s.target, ast.Name) or any(isinstance(nd, ast.Name) and nd.id == s.target.id and isinstance(nd.ctx, ast.Store) for st in s.body for nd in ast.walk(st)):
+                            raise Unsupported("for target assigned in the loop body")
+                        lo, hi = (ast.Constant(value=0), s.iter.args[0]) if len(s.iter.args) == 1 else s.iter.args
+                        iv = s.target.id
+                        init = ast.Assign(targets=[ast.Name(id=iv, ctx=ast.Store())], value=lo)
+                        step = ast.Assign(targets=[ast.Name(id=iv, ctx=ast.Store())], value=ast.BinOp(left=ast.Name(id=iv, ctx=ast.Load()), op=ast.Add(), right=ast.Constant(value=1)))
+                        loop = ast.For(target=ast.Name(id="_", ctx=ast.Store()), iter=ast.Call(func=ast.Name(id="range", ctx=ast.Load()), args=[ast.BinOp(left=hi, op=ast.Sub(), right=lo)], keywords=[]), body=list(s.body) + [step], orelse=[])
+                        for nd_ in (init, loop):
+                            ast.copy_location(nd_, s)
+                            ast.fix_missing_locations(nd_)
+                        self.assign(init.targets[0], init.value, blk)
+                        self.run_for_range(loop, blk)
+                        self.cur = blk
+                        continue
                     self.run_for_range(s, blk)
                     self.cur = blk
                     continue
@@ -869,6 +889,20 @@ class Frame:
                     raise Unsupported("string subscript store")
                 self.setfield(base[1], f"{base[2]}.{key.value}", v, blk)
                 return
+            if isinstance(key, ast.Slice) and isinstance(target.value, ast.Attribute):
+                # arr[a:b] = scalar on a float array (0 <= a <= b <= len, guarded): the entries a .. b-1 are overwritten
+                if key.lower is None or key.upper is None or key.step is not None:
+                    raise Unsupported("slice store shape")
+                owner = self.ev(target.value.value)
+                l = self.getattr(owner, target.value.attr)
+                a, b = self.ev(key.lower), self.ev(key.upper)
+                if not (is_vec(l.ty) and a.ty == INT and b.ty == INT and isinstance(v, V) and v.ty in (INT, NUM)):
+                    raise Unsupported("slice store typing")
+                la = self.bind_atomic(l, "arr_")
+                self.guard(f"(orb (Z.ltb {a.e} 0%Z) (orb (Z.ltb {b.e} {a.e}) (Z.ltb (Z.of_nat (length {la.e})) {b.e})))", "IndexError")
+                nl = V(f"(firstn (Z.to_nat {a.e}) {la.e} ++ repeat {coerce(v, NUM).e} (Z.to_nat (Z.sub {b.e} {a.e})) ++ skipn (Z.to_nat {b.e}) {la.e})", l.ty)
+                self.setattr(owner, target.value.attr, nl, blk, raw_list=True)
+                return
             # list element store: self.queue[i] = value
             if not isinstance(target.value, ast.Attribute):
                 raise Unsupported("subscript store")
@@ -882,6 +916,9 @@ class Frame:
                 x = coerce(v, et)
             else:
                 x = coerce(v, et)
+            if is_vec(l.ty):
+                # a NumPy array: an out-of-range store raises IndexError (a negative index counts from the end: outside the subset)
+                self.guard(f"(orb (Z.ltb {i.e} 0%Z) (Z.leb (Z.of_nat (length {l.e})) {i.e}))", "IndexError")
             nl = V(f"(set_nth (Z.to_nat {i.e}) {x.e} {l.e})", l.ty)
             self.setattr(owner, target.value.attr, nl, blk, raw_list=True)
             return
@@ -1600,6 +1637,9 @@ class Frame:
             elif a.ty != NONE:
                 raise Unsupported("np.random.seed argument")
             return V("tt", UNIT)
+        if name == "np.zeros" and len(args) == 1 and not n.keywords and args[0].ty == INT:
+            self.guard(f"(Z.ltb {args[0].e} 0%Z)", "ValueError")  # NumPy: negative dimensions are not allowed
+            return V(f"(repeat (@ofZ A 0%Z) (Z.to_nat {args[0].e}))", lst(NUM))
         if name == "np.array" and len(args) == 1 and not n.keywords and isinstance(n.args[0], ast.List):
             return args[0]  # a float array given by its elements (1-D) / its rows (2-D)
         if name == "np.append" and len(args) == 2 and not n.keywords:
@@ -1664,6 +1704,8 @@ class Frame:
             return V("false", BOOL)
         if t in (NUM, INT) and not (set(names) & numeric):
             return V("false", BOOL)
+        if is_vec(t) and "np.ndarray" in names:
+            return V("true", BOOL)  # values of float-array type are NumPy arrays (np.zeros / np.array / array arithmetic)
         if isinstance(t, tuple) and t[0] == "list":
             return V("true" if "list" in names else "false", BOOL)
         if t == STR:
